@@ -106,6 +106,23 @@ HISTORY = {
     "__index__ objects as slice bounds",
     "C17_r7_accept_all_list_shared_by_all_overrides": "missed at first (the needed history is rare at random); caught after the fixed histories "
     "that add a precondition afterwards to one of several overrides of accept-all members",
+    "C01_r8_body_runs_marked_when_no_postconditions": "missed at first by C01 (no call of a function from its own body); caught after the "
+    "recursion-from-body scenario (recursion, mutual recursion, the same method of another object; sync and async)",
+    "C02_r8_mutable_defaults_copied_for_contracts": "missed at first (defaults were immutable tokens); caught after the scenario with list / dict / "
+    "set defaults which the body changes",
+    "C03_r8_shared_invariant_decorator_skips_wrapping": "missed at first (no decorator object applied to a class and its sub-class in C03); caught "
+    "after the shared-decorator scenario",
+    "C11_r8_speculative_guard_swallows_base_exceptions": "missed at first (conditions of the fault programs were plain probes without comprehensions); "
+    "caught after user code is interrupted while the library re-computes a never-evaluated comprehension part",
+    "C12_r8_setattr_fast_path_ignores_flow": "missed at first (other flows only called methods); caught after a task and a thread started in a method "
+    "assign an attribute of the object",
+    "C14_r8_init_unshadowing_lost": "missed at first by C14 (C04's constructor family covers the mechanism); caught after the diamond class twin",
+    "C16_r8_find_checker_fast_path_misses_checker": "missed at first (the foreign decorator copied __dict__ and sat above all contracts); caught "
+    "after its second guise (updated=()) and the position between the contract decorators",
+    "C17_r8_metaclass_root_not_recognised_for_late_invariants": "missed at first (the late-invariant histories were rooted in DBC); caught after they "
+    "also run with metaclass=DBCMeta roots",
+    "C19_r8_reserved_parameter_check_moved_into_decorators": "missed at first (reserved names only on directly decorated callables); caught after "
+    "overrides without contracts of their own in DBC hierarchies",
 }
 
 
